@@ -45,7 +45,7 @@ typedef struct qop {
 	int body, body_arg;
 	int nchild; struct qop *child;
 	int item;            // first item id
-	int apply_n;
+	int apply_n, apply_auto;
 	int wait_item;       // B_WAIT_LATER: item to wait for
 	int depth;           // suspend: nesting depth; pause: microseconds
 	int resume_after;    // suspend: number of following ops of the same list before the resumes
@@ -72,7 +72,7 @@ typedef struct qgen {
 	int single_queue;    // all client ops go to queue index `focus`
 	int nest_pct;        // chance (percent) that an item body nests further ops
 	int inactive_pct;    // chance that a non-global queue is created inactive
-	int apply_max;
+	int apply_max, apply_big, apply_weight;   // apply_weight: percent of ops forced to be dispatch_apply
 	int suspend_depth_max;
 	int width_pct;       // chance that a concurrent queue gets a small explicit width
 	int use_main;        // include the main queue, drained by sim thread 0
